@@ -125,7 +125,9 @@ class MoveImportsToTypeCheckingBlockVisitor(ContextAwareTransformer):
     def _remove_typing_module(import_item_list: List[ImportItem]) -> List[ImportItem]:
         ret: List[ImportItem] = []
         for import_item in import_item_list:
-            if import_item.module_name != "typing":
+            # mypy_extensions provides TypedDict, the base class of the generated
+            # TypedDict classes: it is needed when the module is imported
+            if import_item.module_name not in ("typing", "mypy_extensions"):
                 ret.append(import_item)
         return ret
 
@@ -178,7 +180,9 @@ class RemoveImportsTransformer(CSTTransformer):
             module_name = name.evaluated_name
             found = False
             for import_item in self.import_items_to_be_removed:
-                if import_item.module_name == module_name:
+                # Only an `import x` item; a `from x import y` item to be moved says
+                # nothing about the source's own `import x` statements.
+                if import_item.module_name == module_name and not import_item.obj_name:
                     found = True
                     break
             if not found:
@@ -201,11 +205,13 @@ class RemoveImportsTransformer(CSTTransformer):
         module_name = get_absolute_module_from_package_for_import(None, updated_node)
         for name in updated_node.names:
             name_value = name.name.value
+            alias = name.evaluated_alias
             found = False
             for import_item in self.import_items_to_be_removed:
                 if (
                     import_item.module_name == module_name
                     and import_item.obj_name == name_value
+                    and import_item.alias == alias
                 ):
                     found = True
                     break
